@@ -854,6 +854,69 @@ def c_ecp5(nout):
     out = prove_complete(label, setup, cls.compute_config, ["clki_div", "clkofb_div", "clkfb_div", "d"], replay=replay)
     return dict(results=out, functions=[MODP + "lattice_ecp5.ECP5PLL.compute_config"], samples=[dict(function="ECP5PLL.compute_config", theorem="ens.complete")])
 
+ECP5_F1 = ("ECP5PLL.compute_config with all 4 outputs in use tests `not config[\"clkfb\"]`: feedback through output 0 counts as 'no feedback output' - clkin 10 MHz, "
+           "outputs 50/25/12.5/6.25 MHz @1e-2 is refused although clki_div 1, clkfb_div 5, VCO 400 MHz, dividers 8/16/32/64 (feedback through output 0) is inside every "
+           "declared range; the same request with outputs 0 and 1 swapped is accepted (native replay: tools/replay_c20_ecp5_four_outputs.py)")
+ECP5_F2 = ("ECP5PLL.compute_config with all 4 outputs in use accepts an output as feedback only if its FIRST-FIT divider equals clkofb_div: clkin 10 MHz, outputs 64 MHz @1e-3, "
+           "10 MHz @2e-2, 32 MHz @1e-3, 16 MHz @1e-3 is refused (dividers 63..65 meet output 1, 63 is stored, 64 is needed) although clkfb_div 1, VCO 640 MHz, dividers "
+           "10/64/20/40 is inside every declared range; with the margin of output 1 tightened to 1e-3 it is accepted (native replay: tools/replay_c20_ecp5_four_outputs.py)")
+
+def c_ecp5_full(mode):
+    """all four outputs requested: one of them (index j, rigid) must close the feedback loop: d*_j = clkofb_div*.
+    mode 'fb0'     : j = 0                                                              -> finding clause F1 (expected to fail)
+    mode 'first'   : j >= 1 and d*_j is the smallest divider that meets output j (the next smaller one overshoots f_j*(1+m_j)) -> ens.complete
+    mode 'nonfirst': j >= 1, no such restriction                                        -> finding clause F2 (expected to fail)"""
+    cls = lattice_ecp5.ECP5PLL; nout = cls.nclkouts_max; label = f"ECP5PLL(nout={nout},{mode}).compute_config"
+    def setup(ctx):
+        pll = cls(); pll.logger.disabled = True; terms = {}
+        fin, reqs = _reqs(pll, nout, terms, extra=(True,))
+        ki = _member_decl("W_clki_div", pll.clki_div_range); kf = _member_decl("W_clkfb_div", pll.clkfb_div_range); kofb = _member_decl("W_clkofb_div", pll.clko_div_range)
+        pfd = fin.t / _r(ki); vco = pfd * _r(kf) * _r(kofb)
+        _assume(z3.And(pfd >= _r(pll.pfd_freq_range[0]), pfd <= _r(pll.pfd_freq_range[1])))
+        _assume(z3.And(vco >= _r(pll.vco_freq_range[0]), vco <= _r(pll.vco_freq_range[1])))
+        j = 0 if mode == "fb0" else 1 + _pick("W_feedback_output_minus_1", nout - 1)
+        terms.update(W_clki_div=ki.t, W_clkfb_div=kf.t, W_clkofb_div=kofb.t, W_feedback_output=z3.IntVal(j)); wd = {}
+        for n, (f, m) in enumerate(reqs):
+            d = kofb if n == j else _member_decl(f"W_d{n}", pll.clko_div_range)
+            _assume(_within(vco / _r(d), f, m)); wd[n] = d; terms[f"W_d{n}"] = d.t
+        if mode == "first":
+            f, m = reqs[j]
+            _assume(z3.Or(kofb.t == pll.clko_div_range[0], vco / (_r(kofb) - 1) > f.t * (1 + m.t)))
+        specs = {"clki_div": dict(witness=lambda vc, L: ki), "clkofb_div": dict(witness=lambda vc, L: kofb), "clkfb_div": dict(witness=lambda vc, L: kf), "d": dict(witness=lambda vc, L: wd[L["n"]])}
+        return pll, specs, terms
+    def replay(v, planted):
+        fin = float(v["fin"]); outs = [(float(v[f"f{n}"]), float(v[f"m{n}"])) for n in range(nout)]
+        if planted: outs = [(fin / int(v["W_clki_div"]) * int(v["W_clkfb_div"]) * int(v["W_clkofb_div"]) / int(v[f"W_d{n}"]), 1e-12) for n in range(nout)]
+        pll = _ecp5_native(fin, outs)
+        try: cfg = _native_call(pll)
+        except Exception as e: return "crash", f"ECP5PLL clkin={fin!r} outs={outs!r}: compute_config raised {type(e).__name__}: {e}"
+        ex = _ecp5_exists(pll, fin, outs, True)
+        return ("refused-though-a-setting-exists" if cfg is None and ex is not None else "ok",
+                f"ECP5PLL clkin={fin!r} outs={outs!r}: compute_config {'raised ValueError' if cfg is None else 'returned'}; independent exact search over the declared ranges: {ex}")
+    out = prove_complete(label, setup, cls.compute_config, ["clki_div", "clkofb_div", "clkfb_div", "d"], replay=replay)
+    if mode != "first":
+        for r_ in out:
+            if r_["name"].endswith(".ens.complete"):
+                r_["name"] = r_["name"][:-len("ens.complete")] + ("finding.complete.feedback-through-output-0" if mode == "fb0" else "finding.complete.first-fit-divider-hides-feedback-output")
+                r_["kind"] = "finding-witness"; r_["what"] = ECP5_F1 if mode == "fb0" else ECP5_F2
+    return dict(results=out, functions=[MODP + "lattice_ecp5.ECP5PLL.compute_config"], samples=[dict(function="ECP5PLL.compute_config", theorem="ens.complete", outputs=4, mode=mode)])
+
+def c_ecp5_native_findings():
+    """the two 4-output defects on concrete requests, real class under plain CPython, with the control requests that are accepted"""
+    out = []
+    def one(name, what, fin, outs, expect_refused):
+        pll = _ecp5_native(fin, outs); cfg = _native_call(pll); ex = _ecp5_exists(_ecp5_native(fin, outs), fin, outs, True)
+        wrong = cfg is None and ex is not None
+        if expect_refused:
+            out.append(res(name, "finding-witness", VIOLATED if wrong else PROVED, 0, "executed", what=what, info=f"clkin={fin} outs={outs}: {'refused' if cfg is None else 'returned'}; independent exact search: {ex}"))
+        else:
+            out.append(res(name, "bounded", BOUNDED_OK if not wrong else VIOLATED, 0, "executed", info=f"clkin={fin} outs={outs}: {'refused' if cfg is None else 'returned'}; independent exact search: {ex}"))
+    one("finding.complete.feedback-through-output-0.native[clkin=10MHz,outs=50/25/12.5/6.25MHz@1e-2]", ECP5_F1, 10e6, [(50e6, 1e-2), (25e6, 1e-2), (12.5e6, 1e-2), (6.25e6, 1e-2)], True)
+    one("ens.complete.native[clkin=10MHz,outs=25/50/12.5/6.25MHz@1e-2] (control: outputs 0 and 1 swapped)", "", 10e6, [(25e6, 1e-2), (50e6, 1e-2), (12.5e6, 1e-2), (6.25e6, 1e-2)], False)
+    one("finding.complete.first-fit-divider-hides-feedback-output.native[clkin=10MHz,outs=64@1e-3/10@2e-2/32@1e-3/16MHz@1e-3]", ECP5_F2, 10e6, [(64e6, 1e-3), (10e6, 2e-2), (32e6, 1e-3), (16e6, 1e-3)], True)
+    one("ens.complete.native[clkin=10MHz,outs=64/10/32/16MHz@1e-3] (control: margin of output 1 tightened)", "", 10e6, [(64e6, 1e-3), (10e6, 1e-3), (32e6, 1e-3), (16e6, 1e-3)], False)
+    return dict(results=out, functions=[MODP + "lattice_ecp5.ECP5PLL.compute_config"], samples=[dict(bounded="ECP5PLL 4 outputs", requests=4)])
+
 def cases(tier):
     cs = [Case("S7PLL(-1,1).complete", c_xilinx, "S7PLL", -1, 1), Case("S7PLL(-1,2).complete", c_xilinx, "S7PLL", -1, 2),
           Case("S7MMCM(-2,2).complete", c_xilinx, "S7MMCM", -2, 2), Case("S6PLL(-1,2).complete", c_xilinx, "S6PLL", -1, 2),
